@@ -6,7 +6,7 @@ import z3
 from . import terms as T
 from .lockstep import Obligation
 from .sym import Exec, St, Unsupported
-from .terms import V, PyC, asV, app, pred, NONE, EXC_CODE, IntV, truthy, FA
+from .terms import V, PyC, Tup, asV, app, pred, NONE, EXC_CODE, IntV, truthy, FA
 
 
 def wf_partial_tree(ctx):
@@ -82,11 +82,28 @@ class PostCheck:
                 return
             ex = Exec(ctx, "real", fname)
             ex.ordinal_while = 0
+            post = c.d["post"]
+            if post.get("returns_none"):
+                ex.writes = set()
             outs = ex.run_function(real_def, args, st0)
             self.notes += ex.notes
             outs = [o for o in outs if ctx.feasible(o.st.conds)]
             self.stats["real_paths"] = len(outs)
-            post = c.d["post"]
+            if post.get("returns_none"):
+                # total-return contract (exception constructors): every path returns None, nothing can escape, nothing but locals is written
+                for o in outs:
+                    info = "path ending at line %s %s" % (o.line, o.describe())
+                    if o.kind != "ret":
+                        self.ob("%s/post/never-raises" % fname, o.st.conds, z3.BoolVal(False), info + ": an exception escapes")
+                        continue
+                    v = o.value
+                    isnone = (isinstance(v, PyC) and v.v is None) or v is None
+                    self.ob("%s/post/returns-none" % fname, o.st.conds, z3.BoolVal(True) if isnone else (asV(v) == NONE if not isinstance(v, (Tup,)) else z3.BoolVal(False)), info)
+                    for (cd, msg, line) in o.st.events:
+                        self.ob("%s/post/no-other-exception" % fname, o.st.conds, cd == 0, "partial operation at line %s may fail: %s" % (line, str(cd)[:100]))
+                bad = sorted(k for k in (ex.writes or ()) if not k.startswith("local:") and k not in c.d.get("modifies", []))
+                self.ob("%s/frame" % fname, [], z3.BoolVal(not bad), "writes outside the declared frame %s: %s" % (c.d.get("modifies", []), bad))
+                return
             want = EXC_CODE[post["always_raises"]]
             for o in outs:
                 info = "path ending at line %s %s" % (o.line, o.describe())
